@@ -84,6 +84,10 @@ type Stream struct {
 	// for single-goroutine replays in which everything the reader may need was written before,
 	// so that a reader wanting more (a desynchronised decoder) fails at once instead of hanging.
 	NoBlock bool
+
+	// EOFWithData makes the Read that hands out the last available byte of an ended (closed or cut)
+	// stream return it together with io.EOF, which the io.Reader contract allows.
+	EOFWithData bool
 }
 
 // NewStream creates a stream.
@@ -159,6 +163,9 @@ func (s *Stream) Read(p []byte) (int, error) {
 			}
 			copy(p, s.data[s.roff:s.roff+n])
 			s.roff += n
+			if s.EOFWithData && s.roff == limit && (s.closed || (s.cutAt >= 0 && s.roff >= s.cutAt)) {
+				return n, io.EOF
+			}
 			return n, nil
 		}
 		if s.cutAt >= 0 && s.roff >= s.cutAt {
